@@ -281,6 +281,17 @@ GOLDEN_STACKS = [
     ("linear", [["linear", "f32"], ["strided", "u64", 1], ["array", "f64", 2]]),
     ("affine_constant", [["affine"], ["constant", "f32", 3, "f32", 3]]),
     ("clamp_identity", [["clamp"], ["identity", "f32", 1]]),
+    # added later (same pinned format): configurations whose in-memory layout could change independently of the file image
+    ("affine_1d_f32", [["affine"], ["nn", "f32"], ["strided", "u64", 1], ["array", "f32", 1]]),
+    ("affine_2d_f32", [["affine"], ["linear", "f32"], ["strided", "u64", 2], ["array", "f32", 2]]),
+    ("affine_2d_f64", [["affine"], ["nn", "f64"], ["strided", "u64", 2], ["array", "f64", 1]]),
+    ("affine_1d_f64_identity", [["affine"], ["identity", "f64", 1]]),
+    ("backup_f64_coords_f32x3", [["backup"], ["nn", "f64"], ["strided", "u64", 2], ["array", "f32", 3]]),
+    ("backup_u64_coords_f32x1", [["backup"], ["strided", "u64", 3], ["array", "f32", 1]]),
+    ("clamp_i32_2d", [["clamp"], ["strided", "i32", 2], ["array", "f32", 1]]),
+    ("clamp_f64_3d", [["clamp"], ["linear", "f64"], ["strided", "u64", 3], ["array", "f64", 1]]),
+    ("strided_u32_4d", [["strided", "u32", 4], ["array", "f32", 2]]),
+    ("constant_f64x1_f32x3", [["constant", "f64", 1, "f32", 3]]),
 ]
 
 
